@@ -12,7 +12,12 @@ Besides the call sites it emits
    and inherits SSIdat's" is an obligation over the source, not a comment;
  * `methods`: per run / mpe / mpe_from_plot / plot_* method the guard it starts with (`super().mpe(...)` or
    `if not self.result: raise ValueError`), the guard's position in the numbering of the sites and stores, and the
-   statements in front of the guard that are more than a docstring or an alias of an argument.
+   statements in front of the guard that are more than a docstring or an alias of an argument;
+ * the wiring of the picking dialog (support/sel_from_plot.py, `translate_dialog`): class-level bindings, and per method
+   the assignments to attributes of self, the calls through self, the event connections (`mpl_connect` / `protocol` /
+   `bind`, with the branch condition on `self.plot` they sit under and the parameters the handler receives) and a
+   behavioural summary of every method (`dialogClasses`, `dassigns`, `dcalls`, `dconnects`, `dmethods`; obligations in
+   Props/WiringPick.lean).
 Output: lean/PyomaVerif/Generated/Wiring.lean.  Regenerated on every run."""
 import ast
 import copy
